@@ -136,7 +136,17 @@ def my_open(file, mode_="r", *a, **k):
     return _open(file, mode_, *a, **k)
 
 
+XDEV = os.environ.get("C08_XDEV") == "1"   # emulate: every directory is its own filesystem (a rename across directories fails with EXDEV)
+
+
+def _xdev(a, b):
+    if XDEV and armed[0] and os.path.dirname(os.path.abspath(str(a))) != os.path.dirname(os.path.abspath(str(b))):
+        import errno
+        raise OSError(errno.EXDEV, "Invalid cross-device link (emulated)", str(a))
+
+
 def my_replace(a, b, *x, **k):
+    _xdev(a, b)
     if armed[0] and mode == "powerloss":
         pw = durable_of.get(os.path.abspath(str(a)))
         r = _replace(a, b, *x, **k)
@@ -153,6 +163,7 @@ def my_replace(a, b, *x, **k):
 
 
 def my_rename(a, b, *x, **k):
+    _xdev(a, b)
     if armed[0] and hit(f"rename:{os.path.basename(str(a))}->{os.path.basename(str(b))}"):
         os._exit(17)
     return _rename(a, b, *x, **k)
